@@ -179,7 +179,11 @@ def writable_recipe(rng):
 
 def run(ctx):
     import nir
+    import h5raw
+    from canon import canon_node
+    from props.c01 import model_tree
     rng = ctx.rng
+    cases, obs, reqs = [], [], []
     tmpdir = tempfile.mkdtemp(prefix="nirverif-c04-", dir="/var/tmp")
     try:
         # shipped artefacts: read, rewrite, re-read
@@ -220,6 +224,16 @@ def run(ctx):
             for k, v in enc.used.items():
                 ctx.count("enc_" + k, v)
             try:
+                tree = model_tree(h5raw.traverse_file(path))
+                c1 = {"op": "read_tree", "file": tree}
+                try:
+                    o1 = canon_node(nir.read(path))
+                except Exception as e:  # noqa
+                    o1 = {"err": err_name(e)}
+                cases.append(c1); obs.append(o1); reqs.append(c1)
+            except Exception:
+                ctx.count("traverse_declined")
+            try:
                 got = nir.read(path)
             except Exception as e:  # noqa
                 ctx.violate(case, "a conforming encoding is not read",
@@ -230,6 +244,7 @@ def run(ctx):
                 ctx.violate(case, "a conforming encoding decodes to a different graph",
                             {"site": "read", "what": "diff", "choice": sorted(fixed.items()),
                              "first": d[0].split(":")[-1].strip()[:30]}, observed=d[:4])
+        ctx.compare("reader", cases, obs, reqs)
     finally:
         import shutil
         shutil.rmtree(tmpdir, ignore_errors=True)
